@@ -628,7 +628,7 @@ func (s *grpcServer) SpliceBlob(ctx context.Context, req *pb.SpliceBlobRequest) 
 		default:
 		}
 
-		return nil, grpc_status.Errorf(codes.Unknown,
+		return nil, grpc_status.Errorf(gRPCErrCode(err, codes.Unknown),
 			"Failed to splice blob %s/%d: %s",
 			req.BlobDigest.Hash, req.BlobDigest.SizeBytes, err)
 	}
